@@ -59,10 +59,10 @@ func (s *faultSink) Write(p []byte) (int, error) {
 }
 
 type c15WRes struct {
-	errs   []error
-	names  []string
-	sink   *faultSink
-	panic  string
+	errs  []error
+	names []string
+	sink  *faultSink
+	panic string
 }
 
 func runC15W(k c15W, sink io.Writer) (res c15WRes) {
@@ -143,12 +143,12 @@ func c15WScenarios(thorough bool) []c15W {
 // ---- reader side -------------------------------------------------------------------------------
 
 type c15R struct {
-	Opts    wopts   `json:"opts"`
-	Len     int     `json:"len"`
-	Frag    int     `json:"frag"`
-	FailAt  int     `json:"fail_at"`
-	FailN   int     `json:"fail_n"`
-	Read    readCfg `json:"read"`
+	Opts   wopts   `json:"opts"`
+	Len    int     `json:"len"`
+	Frag   int     `json:"frag"`
+	FailAt int     `json:"fail_at"`
+	FailN  int     `json:"fail_n"`
+	Read   readCfg `json:"read"`
 }
 
 // stickySource fails at call k and keeps failing.
